@@ -192,6 +192,16 @@ def run(ctx, replay=None):
                 ctx.run([uprec, "-mode", "replay", "-scripts", one, "-out", of2, "-unit", str(u)], ok=(0, 66))
                 r2 = vlib.read_ndjson(of2)[0]
                 if r2["ok"]:
+                    # alone it passes: the behaviours share one long-lived client, so run the whole sequence once more -- a failure
+                    # of the same behaviour at the same place is a dependence on what earlier uploads left behind in the client
+                    of3 = os.path.join(gen, "replay-%d-again.ndjson" % u)
+                    if not os.path.exists(of3):
+                        ctx.run([uprec, "-mode", "replay", "-scripts", sf, "-out", of3, "-unit", str(u)], ok=(0, 66))
+                    r3 = [x for x in vlib.read_ndjson(of3) if x["id"] == r["id"]]
+                    if r3 and not r3[0]["ok"] and r3[0]["action"] == r["action"]:
+                        why = re.sub(r"[0-9]+", "N", r["why"])[:90]
+                        add("upload-replay on a reused client action=%s %s" % (r["action"], why), {"case": {"kind": "replay-sequence", "unit": u, "id": r["id"]}, "observed": r})
+                        continue
                     unconfirmed.append("upload behaviour %d failed once (%s) and passed on re-execution" % (r["id"], r["why"]))
                     continue
                 why = re.sub(r"[0-9]+", "N", r["why"])[:90]
